@@ -37,7 +37,139 @@ def _generic_rules():
     ]
 
 
+# R14b: helper functions of the repository a change may route the code through ("extract method").  Filled by the driver when a first attempt
+# fails to compile because a function / method is unknown; every translate() then inlines calls of these helpers (beta reduction) before the
+# unit's own rules see the text, so the helper's body is verified as part of its caller.
+import threading
+_TL = threading.local()     # units run in threads: the registry is per thread
+
+
+def helpers():
+    """name -> {"params": [names], "has_self": bool, "body": tokens, "where": "file: fn"} for the unit being built in this thread"""
+    d = getattr(_TL, "h", None)
+    if d is None:
+        d = _TL.h = {}
+    return d
+_IDENT = re.compile(r"^[A-Za-z_][A-Za-z0-9_]*$")
+
+
+def find_helper(repo, name):
+    """the unique non-test definition `fn name(..) { body }` in the repository, if its body can be inlined (no `return`, no `?`, not recursive)"""
+    from .lexer import lex
+    from .extract import match_close
+    found = []
+    for root in ("compiler/src", "bytecode/src", "bytecode_dev_transpiler/src", "src"):
+        for dp, dn, fn in os.walk(os.path.join(repo, root)):
+            if "tests" in dp.split(os.sep):
+                continue
+            for f in fn:
+                if not f.endswith(".rs"):
+                    continue
+                try:
+                    toks = lex(open(os.path.join(dp, f), encoding="utf-8").read())
+                except Exception:
+                    continue
+                for i, t in enumerate(toks[:-2]):
+                    if t == "fn" and toks[i + 1] == name and toks[i + 2] in ("(", "<"):
+                        po = toks.index("(", i)
+                        pc = match_close(toks, po)
+                        j = pc + 1
+                        while j < len(toks) and toks[j] not in ("{", ";"):
+                            j += 1
+                        if j >= len(toks) or toks[j] != "{":
+                            continue
+                        bc = match_close(toks, j)
+                        ptoks = toks[po + 1:pc]
+                        params, cur, d = [], [], 0
+                        for x in ptoks + [","]:
+                            if x in ("(", "[", "<"): d += 1
+                            elif x in (")", "]", ">"): d -= 1
+                            if x == "," and d == 0:
+                                if cur: params.append(cur)
+                                cur = []
+                            else:
+                                cur.append(x)
+                        has_self = bool(params) and "self" in params[0][:3] and ":" not in params[0]
+                        names = []
+                        for pr in (params[1:] if has_self else params):
+                            pr = [x for x in pr if x != "mut"]
+                            if len(pr) >= 2 and _IDENT.match(pr[0]) and pr[1] == ":":
+                                names.append(pr[0])
+                            else:
+                                names = None; break
+                        found.append({"params": names, "has_self": has_self, "body": toks[j + 1:bc], "where": f"{os.path.relpath(os.path.join(dp, f), repo)}: fn {name}"})
+    if len(found) != 1:
+        return None
+    h = found[0]
+    if h["params"] is None or "return" in h["body"] or "?" in h["body"] or name in h["body"]:
+        return None
+    return h
+
+
+def inline_helpers(toks, log):
+    from .extract import match_close
+    out = list(toks)
+    for name, h in list(helpers().items()):
+        guard = 0
+        i = 0
+        while i < len(out) - 1 and guard < 50:
+            if out[i] == name and out[i + 1] == "(" and (i == 0 or out[i - 1] != "fn"):
+                c = match_close(out, i + 1)
+                args, cur, d = [], [], 0
+                for x in out[i + 2:c] + [","]:
+                    if x in ("(", "[", "{"): d += 1
+                    elif x in (")", "]", "}"): d -= 1
+                    if x == "," and d == 0:
+                        if cur: args.append(cur)
+                        cur = []
+                    else:
+                        cur.append(x)
+                start = i
+                recv = None
+                if i >= 1 and out[i - 1] == ".":
+                    # method call: walk back over the receiver (idents, `.`, call / index groups, a leading `&` / `*`)
+                    s = i - 1
+                    while s > 0:
+                        t = out[s - 1]
+                        if t in (")", "]"):
+                            depth, q = 0, s - 1
+                            while q >= 0:
+                                if out[q] in (")", "]"): depth += 1
+                                if out[q] in ("(", "["):
+                                    depth -= 1
+                                    if depth == 0: break
+                                q -= 1
+                            s = q
+                        elif _IDENT.match(t) or t == "." or t == "::":
+                            s -= 1
+                        else:
+                            break
+                    recv = out[s:i - 1]
+                    start = s
+                elif i >= 2 and out[i - 1] == "::":
+                    start = i - 2                      # `Type :: name ( .. )`
+                if len(args) != len(h["params"]) or (h["has_self"] and recv is None) or (recv is not None and not h["has_self"]):
+                    i += 1
+                    continue
+                body = [("verif_self" if t == "self" else t) for t in h["body"]]
+                rep = ["{"]
+                if recv is not None:
+                    rep += ["let", "verif_self", "=", "&", "("] + recv + [")", ";"]
+                for pn, a in zip(h["params"], args):
+                    rep += ["let", pn, "="] + a + [";"]
+                rep += body + ["}"]
+                log.append(("R14b", f"{name}(..)", "{ let <params> = <args>; <body of the helper> }", f"helper function inlined (beta reduction): {h['where']}"))
+                out[start:c + 1] = rep
+                i = start + len(rep)
+                guard += 1
+            else:
+                i += 1
+    return out
+
+
 def translate(toks, rules, log, what="", generic=True):
+    if helpers():
+        toks = inline_helpers(toks, log)
     if generic:
         from .rules import normalize_chains, option_idioms
         toks = normalize_chains(toks, log)
@@ -298,6 +430,8 @@ def run_verus_file(uid, gen_text, obls, workdir, timeout=600, rlimit=100, type_m
                         f"pub uninterp spec fn verif_unknown_{ty}_{name}(p: {ty}) -> bool;\n"
                         f"impl {ty} {{ #[verifier::external_body] pub fn {name}(&self) -> (r: bool) ensures r == verif_unknown_{ty}_{name}(*self) {{ unimplemented!() }} }}\n")
         elif mf and ("fn", mf.group(1)) not in added:
+            if mf.group(1) not in helpers() and find_helper(os.environ.get("VERIF_REPO", "/repo"), mf.group(1)) is not None:
+                break       # R14b first: the driver inlines the helper's body and builds the unit again (its text is then verified, nothing is assumed)
             added.append(("fn", mf.group(1)))
             stub = _stub_for_unknown_fn(mf.group(1), gen_text, type_map)
         elif mv and ("const", mv.group(1)) not in added:
@@ -309,6 +443,15 @@ def run_verus_file(uid, gen_text, obls, workdir, timeout=600, rlimit=100, type_m
         gen_text = gen_text[:idx] + stub + gen_text[idx:]
         for o in obls:
             o.status = None; o.detail = ""
+    # a helper carried as an abstract item WITHOUT a contract may in reality always answer the harmless way: an obligation that fails under it is not
+    # a violation that can be shown -- it is undecided (never an alarm on code where the property may well hold)
+    abstract = [a for a in added if a[0] == "fn" or (a[0] not in ("const", "clone", "to_owned", "to_string"))]
+    if abstract and not res.undecided:
+        names = ", ".join(a[1] if a[0] == "fn" else f"{a[1]}::{a[0]}" for a in abstract)
+        for o in res.obls:
+            if o.status == "failed" and o.kind != "kf":
+                o.status = "undecided"
+                o.detail = f"fails with `{names}` carried as an abstract callee without contract (its body is outside this unit's reach): not decided\n" + (o.detail or "")
     if added:
         res.samples = list(getattr(res, "samples", []) or []) + [f"[R15b/c/d] not in the unit's vocabulary: {t} {n} ==> carried as an abstract item" for n, t in [(a[1], a[0]) if a[0] in ("fn", "const") else a for a in added]]
     return res
